@@ -83,7 +83,9 @@ def run(facts, res):
                 inner = rt
                 while inner[0] == "var":
                     inner = inner[3]
-                ok = inner[0] == "unop" and inner[1] == "Not" and peel(inner[2])[0] == "call" and callee_name(peel(inner[2])) == "is_staging"
+                neg = peel(inner[2]) if inner[0] == "unop" and inner[1] == "Not" else ("cut",)
+                ok = (neg[0] == "call" and callee_name(neg) == "is_staging") or \
+                    (neg[0] == "field" and neg[2] == "staging" and (neg[3] if len(neg) > 3 else "").endswith("RevisionTreeEntry"))   # the flag itself
             why = "retain(|_, e| !e.is_staging())"
         elif n in ("values_mut", "iter_mut"):
             # the loop body may only call the per-entry flag reset
@@ -147,7 +149,12 @@ def run(facts, res):
         resets = [blk.idx for blk in v.blocks if not blk.cleanup for st in blk.stmts if st.kind == "assign" and st.place.proj and
                   st.place.proj[-1].get("n") == "winner_cache" and st.rv.kind == "use" and
                   peel(du_of(v).rvalue_term(st.rv, 6))[0] == "agg" and peel(du_of(v).rvalue_term(st.rv, 6))[2] == "None"]
-        loops = [bi for bi, t in v.calls() if t.callee is not None and t.callee.name == "next"]
+        # the sites that fill the caches again: inserts / extends of the leaf set, non-None assignments of the winner (in loops
+        # or after a pipeline)
+        loops = [bi for bi, t in v.calls() if t.callee is not None and t.callee.name in ("insert", "extend") and t.args and
+                 "leafs_cache" in field_path(arg_term(v, t, 0))[0]]
+        loops += [blk.idx for blk in v.blocks if not blk.cleanup for st in blk.stmts if st.kind == "assign" and st.place.proj and
+                  st.place.proj[-1].get("n") == "winner_cache" and blk.idx not in resets]
         ok = bool(clears) and bool(resets) and bool(loops) and all(cfg.dominates(c_, l) for c_ in clears for l in loops) and \
             all(cfg.dominates(r, l) for r in resets for l in loops)
         res.instance("L2", "validate clears leafs_cache and winner_cache before its loop: %s" % ok, v.loc())
